@@ -292,13 +292,31 @@ class Ctx:
                     closures_of(s.body, bp.arg_term(s.bb, ai), s, "pool" if s.ck in POOL_EXEC else "thread", 0)
         return out
 
-    def helper_root(self, body):
-        """the outermost inherent method of the same type that reaches `body` through static
-        crate calls (a private helper chain): path tables are rooted there, with the helpers
-        inlined, so splitting a function into helpers does not change what is enumerated"""
+    def const_lit(self, t):
+        """a constant term with named constants of the crate replaced by their evaluated
+        literal (`ITER_CAPACITY` -> `1_usize`), so that naming a magic value changes nothing"""
+        if isinstance(t, tuple) and t and t[0] == "const" and isinstance(t[1], str):
+            cv = getattr(self, "_cvals", None)
+            if cv is None:
+                cv = {}
+                for c in self.prog.facts.j.get("consts", []):
+                    if c.get("val") is not None:
+                        cv[c["path"]] = c["val"]
+                self._cvals = cv
+            if t[1] in cv:
+                return ("const", cv[t[1]]) + tuple(t[2:])
+        return t
+
+    def helper_root(self, body, need=None):
+        """the nearest enclosing inherent method of the same type (going up single-caller chains of
+        static crate calls) whose synchronous call tree satisfies `need` (e.g. "acquires the list
+        lock"): path tables are rooted there, with the helpers inlined, so splitting a function
+        into helpers does not change what is enumerated.  Without `need`: the outermost one."""
         cur = body
         seen = {body.path}
         while True:
+            if need is not None and need(self.sync_reach([cur])):
+                return cur
             adt = cur.j.get("impl_adt")
             ups = {c.body.path: c.body for c in self.prog.callers(cur)
                    if adt and c.body.j.get("impl_adt") == adt and not c.body.j.get("impl_trait") and not c.body.is_closure()}
@@ -309,6 +327,29 @@ class Ctx:
                 return cur
             seen.add(nxt.path)
             cur = nxt
+
+    def base_term(self, t):
+        """strip wrappers; a value handed back by a crate-local helper (`self.lock_x()`) is
+        replaced by what the helper returns, in the caller's terms"""
+        from mirq.interp import Interp, unwrap_all
+        t0 = strip_wrap(t)
+        if t0[0] == "call" and self.prog.by_key.get(t0[2]) is not None:
+            t0 = strip_wrap(unwrap_all(Interp(self.prog).expand(t0)))
+        return t0
+
+    def consumer_body(self):
+        """the body that contains the reducer thread's receive call: the closure handed to the
+        pool, or the private method it delegates its loop to"""
+        r = getattr(self, "_consumer", None)
+        if r is None:
+            cl = self.A.reducer_closure[0]
+            cands = [b for b in self.sync_reach([cl]).values() if any(self.A.is_recv_wrapper_call(s) for s in self.prog.sites(b))]
+            r = cands[0] if len(cands) == 1 else cl
+            self._consumer = r
+        return r
+
+    def reach_has_site(self, reach, pred):
+        return any(pred(s) for b in reach.values() for s in self.prog.sites(b))
 
     def impls_of(self, trait_name, method):
         """crate bodies implementing trait::method"""
